@@ -33,6 +33,17 @@ def cases(draw, tier):
     return c
 
 
+@st.composite
+def zero_dim_cases(draw, tier):
+    """Mostly dense operands under a compressed output, exactly one index of size 0: loops that never reach their
+    terminal must not leave a written flag raised."""
+    c = draw(gen.kernel_cases(max_leaves=draw(st.sampled_from([1, 2, 2, 3])), sparse_output_bias=True, min_target=1,
+                              value_class="exact", literal_rate=5, p_sparse_in=draw(st.sampled_from([0, 2, 5])), min_dim=1,
+                              order_choices=(1, 2, 2, 3), zero_dim10=9))
+    c["capacity"] = 2
+    return c
+
+
 def check(case, ctx=None):
     labels = set(gen.case_features(case))
     oname = case["target"][0]
@@ -65,7 +76,7 @@ def check(case, ctx=None):
     return result(fails, labels, nontrivial, kcheck.case_id(case), s)
 
 
-STREAMS = {"main": {"strategy": cases, "check": check}}
+STREAMS = {"main": {"strategy": cases, "check": check}, "zero_dim": {"strategy": zero_dim_cases, "check": check}}
 
 
 def shrink_case(case, bucket):
@@ -80,6 +91,7 @@ def replay(payload):
 def run(chk):
     n = 2400 if chk.tier == "quick" else 60000
     chk.absorb(run_stream(__name__, "main", chk.tier, chk.seed, n), shrink=shrink_case)
+    chk.absorb(run_stream(__name__, "zero_dim", chk.tier, chk.seed, n // 4), shrink=shrink_case)
 
 
 def health(cov):
